@@ -57,7 +57,7 @@ def check(run):
             if not bad:
                 run.discharged += 1
             total = sum(int(o.split()[0]) for o in io if o.split()[0].isdigit())
-            run.stream('c03/concurrent', len(cases), len(cases), False, '2-64 goroutines x both layouts x console (slow, chunk-copying, yielding writer) / file / rolling appenders x bufferCap 1K/4K/10K x line sizes below, '
+            run.stream('c03/concurrent', len(cases), len(cases), False, '2-64 goroutines x both layouts x console (slow, chunk-copying, yielding writer) / file / rolling appenders x bufferCap 1K/4K/10K x line sizes below, every event stamped (TimeNow hook) with its own second, millisecond and zone, '
                        'in the upper half of, around and beyond the cap; with and without a context-fields hook that hands every call the same slice (spare capacity); oracle: multiset of whole lines in the sink = multiset of events formatted alone, one Write per event (%d events in total)' % total)
             run.coverage['samples'].append({'stream': 'c03/concurrent', 'case': cases[0], 'observation': io[0][:200]})
         # (iii) thorough: the same runs under the race detector (a data race on a pooled buffer is reported even when the bytes happen to agree)
